@@ -225,14 +225,33 @@ func generateVCs(p *Prog, f *FuncIVL) ([]*Query, error) {
 	// header: sorts, functions, initial incarnations
 	var hdr strings.Builder
 	hdr.WriteString("(set-option :produce-models true)\n(set-logic ALL)\n")
-	p.reg.Emit(&hdr, nil)
-	if len(p.sentinels) > 1 {
+	// only the function symbols the passive program mentions (and, transitively, those their axioms mention):
+	// axioms of unrelated ghost functions would burden every query
+	var body strings.Builder
+	for _, b := range order {
+		for _, ln := range pbs[b.ID].lines {
+			body.WriteString(ln.text)
+			body.WriteString("\n")
+		}
+		for _, q := range pbs[b.ID].queries {
+			body.WriteString(q.goal)
+			body.WriteString("\n")
+		}
+	}
+	used := p.reg.usedIn(body.String())
+	p.reg.Emit(&hdr, used)
+	{
+		// sentinel values (package-level error variables): pairwise distinct, stated over those mentioned
 		var names []string
 		for n := range p.sentinels {
-			names = append(names, smtName(n))
+			if used[n] {
+				names = append(names, smtName(n))
+			}
 		}
 		sort.Strings(names)
-		hdr.WriteString("(assert (distinct " + strings.Join(names, " ") + "))\n")
+		if len(names) > 1 {
+			hdr.WriteString("(assert (distinct " + strings.Join(names, " ") + "))\n")
+		}
 	}
 	var vnames []string
 	for v := range f.Vars {
